@@ -551,6 +551,19 @@ async def process_changing_cause(
 
         storage = settings.persistence.progress_storage
         state = progression.State.from_storage(body=cause.body, storage=storage, handlers=owned_handlers)
+
+        # The progress is stored by the handler ids only. A handler that is declared for this very
+        # reason, but whose stored progress belongs to another reason, has got it from its namesake:
+        # one function & id registered for several reasons (e.g. on-update + on-delete). It has not
+        # run for this cause yet: do not inherit the namesake's outcome, start from scratch. Only
+        # the mix-in handlers (resuming: no reason of their own) carry their progress over (below).
+        namesake_ids = {handler.id for handler in cause_handlers
+                        if handler.reason is not None and handler.id in state
+                        and state[handler.id].purpose not in (None, cause.reason.value)}
+        if namesake_ids:
+            state = progression.State(
+                {handler_id: state[handler_id] for handler_id in state if handler_id not in namesake_ids},
+                basetime=state.basetime)
         state = state.with_purpose(cause.reason).with_handlers(cause_handlers)
 
         # Report the causes that have been superseded (intercepted, overridden) by the current one.
